@@ -225,7 +225,9 @@ CLAIMED["C10"] = (
     "dispatch-relation refusal set; path rules for the non-smoothness gates; "
     "right-hand side of every table row and rule branch abstracted into an exact "
     "rational-function normal form (ast only) and compared with reference "
-    "derivative formulas under the branch's assumptions",
+    "derivative formulas under the branch's assumptions; look-aside and "
+    "ownership rules of the CSE caching mix-in the differentiator memoizes "
+    "wrappers through",
     "Each differentiation rule is one algebraic identity decided exactly for "
     "all operands (algebraic rearrangements of a correct rule are accepted); "
     "which node types are differentiated at all and under which setting "
